@@ -373,6 +373,11 @@ def w_rules(ctx):
         # W14: ... and whatever builder calls configured the client: a builder method that rebuilds the builder (to install
         # a middleware) copies each field from the field of the same name (a response limit overwritten by the request
         # limit refuses replies the configured limit admits)
+        # W15: the value a method returns reaches the stub also when its serialisation is exactly as long as the response
+        # limit (= C08.R2); W16: a request whose array carries whitespace before a separator reaches the method (= C16.WS)
+        from . import c08, c16
+        c08.r2_bounded_writer(ctx)
+        c16.rws_separator_sees_no_whitespace(ctx)
         from .common import builder_rebuilds_copy_fields_verbatim
         builder_rebuilds_copy_fields_verbatim(ctx, "C17.W14", r"^jsonrpsee_(http_client::client::HttpClientBuilder|ws_client::WsClientBuilder|core::client::async_client::ClientBuilder|client_transport::ws::WsTransportClientBuilder)\b")
         # W11: the value / error object the server method returned is what is put on the wire: MethodResponse::response
